@@ -69,8 +69,9 @@ Section Proto2.
           (candidate_rb : V -> Ch -> V)           (* validate path of a rollback: overwrite with rollback values *)
           (rollback_of : V -> Ch -> Ch)           (* rollback values captured at validation *)
           (overlay : V -> V -> V)                 (* what Get loads: the entry's inline values overlaid by the path-value map *)
-          (commit_merge : N -> V -> V -> Ch -> V) (* stored map -> loaded view -> change -> stored map:
-                                                     AddDeleteChildren + applyChangeToConfig + store *)
+          (commit_merge : N -> N -> V -> V -> Ch -> V) (* order -> index -> stored map -> loaded view -> change -> stored
+                                                     map: AddDeleteChildren + applyChangeToConfig (in the Go map order
+                                                     picked by [order]) + store *)
           (payload : N -> V -> Ch -> option Req)  (* SetRequest built at apply from the loaded view; None = build error *)
           (record_applied : N -> V -> V -> V -> Ch -> V) (* stored map -> loaded applied values -> loaded view -> change
                                                      -> stored map: Applied.Values += upd; store (same Atomix map) *)
@@ -331,7 +332,8 @@ Section Proto2.
 
   (** * Proposal reconciler *)
   (* the environment's answers for one reconcile invocation *)
-  Record oracle := mkOracle { o_plugin : bool; o_verdict : bool; o_answer : code; o_choice : N }.
+  Record oracle := mkOracle { o_plugin : bool; o_verdict : bool; o_answer : code; o_choice : N;
+                              o_order : N (* which Go map iteration order the invocation sees *) }.
 
   (* the device refuses requests carrying an election id below the highest it has seen *)
   Definition dev_answer (w : world) (t term : N) (o : oracle) : code :=
@@ -413,7 +415,7 @@ Section Proto2.
         | Doing, Some C =>
           let merge :=
             if c_committed C =? p_prev P then
-              [EPutValues t (commit_merge i (c_values C) (view C) (rb_change ch_empty P));
+              [EPutValues t (commit_merge (o_order o) i (c_values C) (view C) (rb_change ch_empty P));
                EPutCfg t (C <| c_index := match p_details P with PChange _ => i | PRollback _ => p_rbindex P end |>
                             <| c_committed := i |> <| c_inline := v_empty |> <| c_ainline := aview C |>)]
             else [] in
@@ -496,7 +498,8 @@ Section Proto2.
     match cfgs w !! t, targets w !! t with
     | Some C, Some persistent =>
       if (persistent : bool) then
-        if bool_decide (c_state C = CPersisted) then ([], RDone) else (upd_status t C (C <| c_state := CPersisted |>), RDone)
+        if bool_decide (c_state C = CPersisted) && negb (c_aterm C <? c_term C) then ([], RDone)
+        else (upd_status t C (C <| c_state := CPersisted |> <| c_amaster := c_master C |> <| c_aterm := c_term C |>), RDone)
       else if negb (bool_decide (c_state C = CSynchronizing)) then
         if c_aterm C <? c_term C then (upd_status t C (C <| c_state := CSynchronizing |>), RDone) else ([], RDone)
       else match c_master C with
